@@ -162,7 +162,7 @@ pub fn run(ctx: &Ctx, out: &mut CaseOut) {
     // every 4th case: the multi-answer fragment (several answers per goal, shared sub-tables, a floundering strand)
     let multi = ctx.k % 4 == 3;
     let (prog, multi_goals) = if multi {
-        let (p, mut g) = gen_multi_answer(&mut r);
+        let (p, mut g) = gen_multi_or_graph(&mut r);
         g.retain(|x| !x.1.is_empty());
         r.shuffle(&mut g);
         (p, g)
